@@ -405,6 +405,7 @@ static int dispatch(TcpAsyncCtx *tcpCtx) {
 		if (req->state != KSI_ASYNC_STATE_WAITING_FOR_DISPATCH) {
 			bool partial = (req->sentCount > 0);
 			/* The state could have been changed in application layer. Just remove the request from the request queue. */
+			req->sentCount = 0;
 			KSI_AsyncHandleList_remove(tcpCtx->reqQueue, 0, NULL);
 			if (partial) {
 				/* The stream ends in the middle of the request: nothing more can be sent on this connection. */
@@ -423,6 +424,7 @@ static int dispatch(TcpAsyncCtx *tcpCtx) {
 			req->state = KSI_ASYNC_STATE_ERROR;
 			req->err = KSI_NETWORK_SEND_TIMEOUT;
 			/* Just remove the request from the request queue. */
+			req->sentCount = 0;
 			KSI_AsyncHandleList_remove(tcpCtx->reqQueue, 0, NULL);
 			if (partial) {
 				/* The stream ends in the middle of the request: nothing more can be sent on this connection. */
